@@ -3,8 +3,10 @@ package c06
 
 import (
 	"fmt"
+	"io"
 	"sort"
 	"strings"
+	"testing/iotest"
 
 	"github.com/flosch/pongo2/v6"
 
@@ -73,6 +75,9 @@ func (c *TextCase) Exec(t *eng.T) {
 		t.Fail("text:"+firstDiffClass(src, out.S), "delimiter-free source %q renders to %q", src, out.S)
 		return
 	}
+	if label, o, ok := viaReaders(src, nil); !ok {
+		t.Fail("text-reader:"+firstDiffClass(src, o.S), "delimiter-free source %q loaded with %s renders to %s", src, label, o)
+	}
 	// rendered bytes belong to the caller: they still read the same after other renderings happened
 	if tpl, o := px.Compile(set, src); tpl != nil {
 		kept, err := tpl.ExecuteBytes(nil)
@@ -125,6 +130,38 @@ type Frag struct {
 var probeCalls int
 
 var bigLiteral = "BIG<" + strings.Repeat("0123456789abcdef", 320) + ">" // 5125 bytes
+
+// readerLoader serves one file through readers with legal but unusual Read behaviour
+type readerLoader struct {
+	src  string
+	mode string // data-with-eof | one-byte | half
+}
+
+func (l *readerLoader) Abs(base, name string) string { return name }
+func (l *readerLoader) Get(p string) (io.Reader, error) {
+	switch l.mode {
+	case "data-with-eof":
+		return iotest.DataErrReader(strings.NewReader(l.src)), nil // the last data comes together with io.EOF
+	case "one-byte":
+		return iotest.OneByteReader(strings.NewReader(l.src)), nil
+	}
+	return iotest.HalfReader(strings.NewReader(l.src)), nil
+}
+
+// viaReaders renders src loaded through FromFile, through an include and through ssi from each reader kind
+func viaReaders(src string, ctx pongo2.Context) (label string, got px.Out, ok bool) {
+	for _, mode := range []string{"data-with-eof", "one-byte", "half"} {
+		set := pongo2.NewSet("c06-readers", &readerLoader{src: src, mode: mode})
+		tpl, o := px.CompileFile(set, "file")
+		if tpl != nil {
+			o = px.Exec(tpl, ctx)
+		}
+		if ref := px.Render(nil, src, ctx); o.String() != ref.String() {
+			return "FromFile through a " + mode + " reader", o, false
+		}
+	}
+	return "", px.Out{}, true
+}
 
 type sinkWriter struct{ b []byte }
 
@@ -246,6 +283,9 @@ func (c *SeqCase) Exec(t *eng.T) {
 	}
 	if o2 := px.RenderBytesScribbled(pongo2.NewSet("c06-bytes", pongo2.MustNewLocalFileSystemLoader("")), src.String(), ctx); !o2.Failed() && o2.S != want.String() {
 		t.Fail("concat-frombytes:"+kindKey, "fragments %s: source %q compiled with FromBytes renders to %q after the caller reused its buffer, want %q", c.ID(), src.String(), o2.S, want.String())
+	}
+	if label, o, ok := viaReaders(src.String(), ctx); !ok && !out.Failed() {
+		t.Fail("concat-reader:"+kindKey, "fragments %s loaded with %s render to %s, want %s", c.ID(), label, clip(o.String()), clip(want.String()))
 	}
 	// the unbuffered entry point writes the same bytes in the same order
 	if tpl, _ := px.Compile(pongo2.NewSet("c06-unbuffered", pongo2.MustNewLocalFileSystemLoader("")), src.String()); tpl != nil {
